@@ -19,7 +19,7 @@ from common import Check, b64, harness, seed
 ALPHA_Q = ["\\", '"', "a", " ", "#", "/", "*", "@"]
 ALPHA_T = ["\\", '"', "a", " ", "#", "/", "*", "@", "[", "]", "\t", "é", "%", "?", "&", "+"]
 # values that look like URL syntax: the library must not interpret them
-URLISH = ["a%20b", "a%2Fb", "100%", "q?x=1", "a%zz", "a+b", "x&y=1", "%41", "a%2fb/{id}", "?", "a?", "%2e%2e"]
+URLISH = ["a\\u0026b", "\\u003cb\\u003e", "x\\u0026", "\\n", "a\\tb", "\\u00e9", "\\\\u0026", "&amp;", "<b>", "a%20b", "a%2Fb", "100%", "q?x=1", "a%zz", "a+b", "x&y=1", "%41", "a%2fb/{id}", "?", "a?", "%2e%2e"]
 
 
 def quote(v):
